@@ -75,9 +75,26 @@ def rule_memo_safety(ck, m, rid, pid, extra_files=()):
         # the property reports it when the memoised function or one of its callers lives in the property's files
         if files and rel not in files and not any(r2 in files for r2, _, _, _ in callers):
             continue
-        # M1: ambient reads
+        # M1: ambient reads, in the function itself and in the package functions it calls (name-based, depth 3)
         params = {a.arg for a in fn.args.posonlyargs + fn.args.args + fn.args.kwonlyargs}
         ambient = []
+        by_name = {}
+        for r3, q3, f3 in m.functions():
+            by_name.setdefault(f3.name, []).append(f3)
+        seen_f, frontier = {id(fn)}, [fn]
+        for _ in range(3):
+            nxt = []
+            for f_ in frontier:
+                for n in ast.walk(f_):
+                    if isinstance(n, ast.Call):
+                        cn = (call_name(n) or "").split(".")[-1]
+                        if cn in AMBIENT_CALLS and f_ is not fn and not (deco == "terminal_size_cached" and cn == "get_terminal_size"):
+                            ambient.append(f"{cn}() via {f_.name}")
+                        for g_ in by_name.get(cn, [])[:3]:
+                            if id(g_) not in seen_f and cn.startswith("_"):
+                                seen_f.add(id(g_))
+                                nxt.append(g_)
+            frontier = nxt
         for n in ast.walk(fn):
             if isinstance(n, ast.Call):
                 cn = (call_name(n) or "").split(".")[-1]
